@@ -159,7 +159,7 @@ theorem tie_eqCall (idx : Index) (q : EQ) (k : QKind) (thr : Nat) :
     simp only [Option.map, Option.some.injEq, Prod.mk.injEq] at h
     refine ⟨m, k.override q.opts, rfl, h.1, h.2.1, h.2.2, ?_⟩
     simp only [eqCall, Fixes.all, ↓reduceIte]
-    generalize findEdgesCore ⟨true, true, true, true, true, true⟩ idx q thr (k.override q.opts) k.report = r
+    generalize findEdgesCore ⟨true, true, true, true, true, true, true, true⟩ idx q thr (k.override q.opts) k.report = r
     cases r with
     | none => rfl
     | some v => obtain ⟨a, b, c⟩ := v; rfl
@@ -194,7 +194,7 @@ theorem tie_findEdgesInternal_conds (thr ne nel : Nat) (bf ii : Bool) :
 /-! ### Reset / Add: the hand model's field updates next to the regenerated statement lists -/
 
 /-- `ShapeIndex.Reset` (shape below: shapes, nextID, cellMap, cells, pendingAdditionsPos, pendingRemovals, status) -/
-theorem tie_Index_reset (s : Index) : Index.reset Fixes.all s = ⟨[], 0, 0, .fresh, []⟩ := rfl
+theorem tie_Index_reset (s : Index) : Index.reset Fixes.all s = ⟨[], 0, 0, .fresh, [], [], []⟩ := rfl
 /-- `ShapeIndex.Add`: `shapes[nextID] = shape; nextID++; status = stale; return nextID - 1` -/
 theorem tie_Index_add (s : Index) (sh : Shape) :
     s.add sh = ({ s with shapes := s.shapes ++ [sh], nextID := s.nextID + 1, status := .stale },
